@@ -873,7 +873,11 @@ func c03First(rc *RuleCtx) {
 			if !feasiblePath(p) {
 				continue
 			}
-			if !permCheckedOnPath(p, keys, wr|lk, nil) {
+			need := wr | lk
+			if dirFromWalk(parent) {
+				need = wr // search permission was tested by the walk where the name was looked up (C03.matrix (5))
+			}
+			if !permCheckedOnPath(p, keys, need, nil) {
 				ok = false
 			}
 		}
@@ -1026,6 +1030,41 @@ func init() {
 		Run:  c05ModeBits})
 }
 
+// callerMasks: the constants k of the arguments `x & k` that the calls of method name in package pk pass at position
+// idx (counting the receiver as 0); all is false when some call passes something else.
+func callerMasks(c *Config, pk, name string, idx int) (ks []int64, all bool) {
+	all = true
+	for _, g := range c.srcFuncs(pk) {
+		eachCall(g, func(ci ssa.CallInstruction) {
+			fn := calleeFunc(ci)
+			if fn == nil || fn.Name() != name {
+				return
+			}
+			args := ci.Common().Args
+			if ci.Common().IsInvoke() {
+				args = append([]ssa.Value{ci.Common().Value}, args...)
+			}
+			if idx >= len(args) {
+				all = false
+				return
+			}
+			b, ok := strip(args[idx]).(*ssa.BinOp)
+			if !ok || b.Op != token.AND {
+				all = false
+				return
+			}
+			if k, isC := constInt(b.Y); isC {
+				ks = append(ks, k)
+			} else if k, isC := constInt(b.X); isC {
+				ks = append(ks, k)
+			} else {
+				all = false
+			}
+		})
+	}
+	return ks, all
+}
+
 func c05ModeBits(rc *RuleCtx) {
 	var mask int64 = -1
 	if p := rc.C.pkg("avfs"); p != nil {
@@ -1094,6 +1133,22 @@ func c05ModeBits(rc *RuleCtx) {
 					if reach != nil {
 						walk(reach.Val, d+1)
 					}
+					return
+				}
+				if strip(v) == param {
+					// the argument as it was received: every caller must have masked it (the convention "the caller
+					// masks" is as good as "setMode masks")
+					ks, all := callerMasks(rc.C, pk, "setMode", 1)
+					if !all || len(ks) == 0 {
+						okShape = false
+						return
+					}
+					for _, k := range ks {
+						if k != ks[0] {
+							okShape = false
+						}
+					}
+					set = append(set, ks[0])
 					return
 				}
 				b, ok := v.(*ssa.BinOp)
